@@ -57,11 +57,18 @@ def some(x):
     return ("variant", "Some", [x], 1)
 
 
+def opt_view(v):
+    """('Some', payload) / ('None',) for an abstract Option value however it was built; None otherwise"""
+    if _is_opt(v):
+        return ("Some", v[2][0]) if v[1] == "Some" else ("None",)
+    return None
+
+
 def _is_opt(v):
     return isinstance(v, tuple) and len(v) >= 3 and v[0] == "variant" and v[1] in ("Some", "None")
 
 
-def call_closure(prog, clo, args, call, depth):
+def call_closure(prog, clo, args, call, depth, inline=False):
     """apply a closure value ('closure', path, upvars) to argument values"""
     if not (isinstance(clo, tuple) and clo and clo[0] == "closure"):
         raise Unrecognised("call of a non-closure value %r" % (clo,))
@@ -71,10 +78,22 @@ def call_closure(prog, clo, args, call, depth):
     env = {1: ("tuple", list(clo[2]))}
     for i, a in enumerate(args):
         env[2 + i] = a
-    return run(cb, 0, env, call=call, prog=prog, depth=depth + 1)
+    return run(cb, 0, env, call=call, prog=prog, depth=depth + 1, inline=inline)
 
 
-def option_builtin(prog, name, args, call, depth):
+def try_builtin(name, args):
+    """`?` on abstract Option values: Try::branch / FromResidual::from_residual"""
+    if name.endswith("core::ops::try_trait::Try>::branch") or name == "core::ops::try_trait::Try::branch" or name.endswith("::branch") and "option::Option" in name:
+        if args and _is_opt(args[0]):
+            o = args[0]
+            return ("variant", "Continue", [o[2][0]], 0) if o[1] == "Some" else ("variant", "Break", [NONE], 1)
+    if (name.endswith("::from_residual") and "option::Option" in name) or name == "core::ops::try_trait::FromResidual::from_residual":
+        if args and _is_opt(args[0]) and args[0][1] == "None":
+            return NONE
+    return None
+
+
+def option_builtin(prog, name, args, call, depth, inline=False):
     """Option combinators over abstract Option values with closure arguments"""
     if not name.startswith("core::option::Option::"):
         return None
@@ -91,23 +110,23 @@ def option_builtin(prog, name, args, call, depth):
     if m in ("as_ref", "as_mut", "cloned", "copied", "take"):
         return o
     if m == "map" and len(args) == 2:
-        return some(call_closure(prog, args[1], [val], call, depth)) if is_some else NONE
+        return some(call_closure(prog, args[1], [val], call, depth, inline)) if is_some else NONE
     if m == "and_then" and len(args) == 2:
-        return call_closure(prog, args[1], [val], call, depth) if is_some else NONE
+        return call_closure(prog, args[1], [val], call, depth, inline) if is_some else NONE
     if m == "unwrap_or_else" and len(args) == 2:
-        return val if is_some else call_closure(prog, args[1], [], call, depth)
+        return val if is_some else call_closure(prog, args[1], [], call, depth, inline)
     if m == "unwrap_or" and len(args) == 2:
         return val if is_some else args[1]
     if m == "map_or" and len(args) == 3:
-        return call_closure(prog, args[2], [val], call, depth) if is_some else args[1]
+        return call_closure(prog, args[2], [val], call, depth, inline) if is_some else args[1]
     if m == "map_or_else" and len(args) == 3:
-        return call_closure(prog, args[2], [val], call, depth) if is_some else call_closure(prog, args[1], [], call, depth)
+        return call_closure(prog, args[2], [val], call, depth, inline) if is_some else call_closure(prog, args[1], [], call, depth, inline)
     if m == "or_else" and len(args) == 2:
-        return o if is_some else call_closure(prog, args[1], [], call, depth)
+        return o if is_some else call_closure(prog, args[1], [], call, depth, inline)
     return None
 
 
-def run(body, start_bb, env, call=None, max_steps=400, prog=None, depth=0):
+def run(body, start_bb, env, call=None, max_steps=400, prog=None, depth=0, inline=False):
     """Interpret `body` from block start_bb with initial local environment env {local: value}.
     Values: int/bool, Sym, ('tuple', [...]), ('variant', name, [...]), ('closure', path, upvars).
     With `prog`, Option combinators taking closures are interpreted by running the closure bodies.
@@ -257,9 +276,19 @@ def run(body, start_bb, env, call=None, max_steps=400, prog=None, depth=0):
             if call is not None:
                 v = call(name, args, t)
             if v is None and prog is not None:
-                v = option_builtin(prog, name, args, call, depth)
+                v = option_builtin(prog, name, args, call, depth, inline)
+            if v is None:
+                v = try_builtin(name, args)
             if v is None:
                 v = default_call(name, args)
+            if v is None and inline and prog is not None:
+                # a crate-local callee is judged by its body (helpers extracted or inlined make no difference)
+                for tgt in (t.get("resolved"), t.get("callee")):
+                    if tgt in prog._bodies_raw:
+                        cb = prog.body(tgt)
+                        if cb is not None and cb.arg_count == len(args):
+                            v = run(cb, 0, {i + 1: a for i, a in enumerate(args)}, call=call, prog=prog, depth=depth + 1, inline=True)
+                            break
             if v is None:
                 raise Unrecognised("call to %s with %r" % (name, args))
             if t["dest"]["p"]:
